@@ -239,7 +239,10 @@ func checkC17(c *Ctx) {
 	c.shared(checkC01, map[string]string{"O2 delta-rmw": "O8 counter-protocol", "O3 delivery": "O8 counter-protocol"})
 	// "for every histogram the cumulative count at each bound": the core bins a histogram by the bounds it
 	// was created with, which are the bounds the vector was registered with (shared with C03 O6)
-	c.shared(checkC03, map[string]string{"O6 own-buckets": "O8 own-bounds", "O6 own-buckets-equal": "O8 own-bounds"})
+	c.shared(checkC03, map[string]string{"O6 own-buckets": "O8 own-bounds", "O6 own-buckets-equal": "O8 own-bounds",
+		"O1 search-predicate": "O8 placed-by-search", "O1 search-range": "O8 placed-by-search", "O2 one-increment": "O8 placed-by-search", "O4 index-guard": "O8 placed-by-search"})
+	// ... and those are the bounds the vector is registered with
+	c.checkPromRegisteredBounds("O4 registered-bounds")
 	// "same name and tag keys with different tag values are separate series": a derived scope's tags are its
 	// parent's overlaid with its own, values included (shared with C04 O3)
 	c.shared(checkC04, map[string]string{"O3 overlay-order": "O8 tags-as-derived"})
@@ -1898,4 +1901,90 @@ func (c *Ctx) checkPromConfiguredBuckets(rule string) {
 		}
 		c.bad(rule, key, st.Pos(), "the default timer buckets handed to the reporter are not exactly the configured bounds: "+why, c.describe(st))
 	}
+}
+
+// checkPromRegisteredBounds: the bounds a histogram vector is registered with are the bounds the core
+// bins by - the reporter hands Prometheus the caller's list as it is. In histogramVec the Buckets field
+// of the HistogramOpts literal is the function's own []float64 parameter, and AllocateHistogram passes
+// buckets.AsValues() of the specification it was given. A list that is filtered, merged or rounded on
+// the way registers a vector that lacks bounds the core will still report samples at.
+func (c *Ctx) checkPromRegisteredBounds(rule string) {
+	const pk = "prometheus"
+	hv := c.fn(pk, "reporter", "histogramVec")
+	ah := c.fn(pk, "reporter", "AllocateHistogram")
+	if hv == nil || ah == nil {
+		c.missing(rule, "prometheus.reporter.histogramVec / AllocateHistogram")
+		return
+	}
+	// histogramVec: the []float64 parameter
+	var bp *ssa.Parameter
+	for _, p := range hv.Params {
+		if sl, ok := p.Type().Underlying().(*types.Slice); ok {
+			if b, isB := sl.Elem().Underlying().(*types.Basic); isB && b.Kind() == types.Float64 {
+				bp = p
+			}
+		}
+	}
+	key := c.fnKey(hv)
+	c.sawFunc(key)
+	n := 0
+	if bp == nil {
+		c.bad(rule, key, hv.Pos(), "histogramVec has no []float64 parameter for the bounds")
+	} else {
+		okAll := true
+		instrsOf(hv, func(in ssa.Instruction) {
+			st, ok := in.(*ssa.Store)
+			if !ok {
+				return
+			}
+			f, _ := addrField(st.Addr)
+			if f == nil || f.Name() != "Buckets" || f.Pkg() == nil || !strings.HasSuffix(f.Pkg().Path(), "client_golang/prometheus") {
+				return
+			}
+			n++
+			if canon(st.Val) != ssa.Value(bp) {
+				okAll = false
+				c.bad(rule, key, st.Pos(), "the vector is registered with bounds that are not the list histogramVec was given (filtered, merged, rounded or re-sorted on the way): Prometheus lacks - or has other - bounds than those the core reports samples at, so the cumulative count at a bound of the specification is missing or wrong", c.describe(st))
+			}
+		})
+		if okAll && n > 0 {
+			c.ok(rule, key, hv.Pos(), "HistogramOpts.Buckets is the bounds parameter itself")
+		}
+	}
+	// AllocateHistogram: the argument is spec.AsValues()
+	key2 := c.fnKey(ah)
+	c.sawFunc(key2)
+	mVals := c.ifaceMethod("", "Buckets", "AsValues")
+	var spec ssa.Value
+	for _, p := range ah.Params {
+		if nt, ok := p.Type().(*types.Named); ok && nt.Obj().Name() == "Buckets" {
+			spec = p
+		}
+	}
+	found, okArg := false, true
+	instrsOf(ah, func(in ssa.Instruction) {
+		call, ok := in.(*ssa.Call)
+		if !ok || staticCallee(call) != hv {
+			return
+		}
+		found = true
+		n++
+		for i, p := range hv.Params {
+			if p != bp || i >= len(call.Call.Args) {
+				continue
+			}
+			src, isCall := canon(call.Call.Args[i]).(*ssa.Call)
+			if !isCall {
+				okArg = false
+				continue
+			}
+			recv, m := ifaceCall(src)
+			if m == nil || m != mVals || canon(recv) != spec {
+				okArg = false
+			}
+		}
+	})
+	c.check(found && okArg, rule, key2, ah.Pos(), "AllocateHistogram registers the vector with buckets.AsValues() of the specification it was given",
+		"AllocateHistogram does not hand histogramVec the AsValues() of its own specification: the vector's bounds are not the histogram's")
+	c.floor(rule, n, 2)
 }
